@@ -1,7 +1,12 @@
 """C08"""
 PROPERTY = "C08"
 LEVEL = "proof"
-FUNCTIONS = []
+FUNCTIONS = ['uxarray.grid.grid.Grid.face_areas',
+    'uxarray.grid.grid.Grid.face_jacobian',
+    'uxarray.grid.grid.Grid.get_ball_tree',
+    'uxarray.grid.grid.Grid.get_kd_tree',
+    'uxarray.grid.grid.Grid.to_linecollection',
+    'uxarray.grid.grid.Grid.to_polycollection']
 STANDINS = ["histories"]
 ASSUMPTIONS = []
 EXPLANATION = ""
